@@ -55,6 +55,7 @@ def run(tier):
     for w in sorted(sp["malformed"]):
         scs.append(dict(mode="malformed", what=w, sid="malformed[%s]" % w))
     scs.append(dict(mode="multi_option", sid="options[same section / absent section]"))
+    scs.append(dict(mode="rc_discovery", sid="rc_discovery[working-directory-before-home]"))
     scs.append(dict(mode="shared_rc", sid="shared_rc[option then plain then saved, one path, one process]"))
     with_alt = [f for f in fields if f["alts"] is not None]
     singles = list(usable)
@@ -103,6 +104,12 @@ def run(tier):
     ok = [x for x in res if x["status"] == "ok"]
     if ok:
         rep.sample(dict(sid=scs[0]["sid"], first_records=ok[0]["result"]["ev"][:4]))
+    # the effect of a supplied value, not only its read-back: a fixed step supplied through an option is the step the simulation takes
+    from .. import tdsfam
+    eff = [dict(sid="effect[TDS.tstep=%g through an option]" % ts, case="kundur/kundur_full.json", family="fixedstep", segs=[1.0], events=[],
+                load_kw=dict(config_option=["TDS.tstep=%g" % ts, "TDS.fixt=1"]), tds=dict(no_tqdm=1)) for ts in (0.05, 0.1)]
+    outs = tdsfam.run_and_validate(eff, rep, timeout=600, label="effect of a supplied step size")
+    tdsfam.judge(PID, outs, rep)
     rep.rule = ("channel combination (TLC-enumerated) x every configurable field with a distinguishable value; per-field singles through "
                 "each channel with valid values and values outside the declared alternatives; malformed options; save/load round trips")
     rep.assume("never reads ~/.andes/andes.rc: config_path is explicit or default_config=True")
